@@ -280,12 +280,15 @@ class Prover:
             return t.args[1] != 0
         if ("ne", t, 0) in facts:
             return True
-        if self.unsigned(t) and self.lb(t, facts) >= 1:
+        l_ = self.lb(t, facts)
+        if l_ is not None and l_ >= 1:
             return True
         if t.op == "cast" and t.args[0] == "IntToInt":
             frm, to = t.args[2], t.args[3]
             if frm in INT_BITS and to in INT_BITS and INT_BITS[frm] <= (32 if to in PTR_SIZED else INT_BITS[to]):
                 return self.nonzero(t.args[1], facts)
+        if t.op == "bin" and t.args[0] == "Div" and self.unsigned(t) and self.le(t.args[2], t.args[1], facts) and self.nonzero(t.args[2], facts):
+            return True       # a / b >= 1 when 1 <= b <= a
         if t.op == "phi":
             ops = self.an.phi_ops.get(t)
             if ops and all(not v.mentions(t) and self.nonzero(v, ()) for v in ops.values()):
